@@ -579,8 +579,14 @@ func (fr *frame) unop(in *ssa.UnOp) value {
 func (m *machine) boundsCheck(idx iv, n int, pos token.Pos) {
 	var c *T
 	if idx.sg {
-		c = m.tt.and(m.tt.bvcmp("bvsge", idx.t, m.tt.bvc(idx.w, 0)), m.tt.bvcmp("bvslt", idx.t, m.tt.bvc(idx.w, uint64(n))))
+		c = m.tt.bvcmp("bvsge", idx.t, m.tt.bvc(idx.w, 0))
+		if idx.w >= 64 || uint64(n) <= (uint64(1)<<uint(idx.w-1))-1 {
+			c = m.tt.and(c, m.tt.bvcmp("bvslt", idx.t, m.tt.bvc(idx.w, uint64(n))))
+		}
 	} else {
+		if idx.w < 64 && uint64(n) >= uint64(1)<<uint(idx.w) {
+			return // every value of the index type is in range
+		}
 		c = m.tt.bvcmp("bvult", idx.t, m.tt.bvc(idx.w, uint64(n)))
 	}
 	m.require("panic.index", bv{t: c}, pos, false)
